@@ -225,7 +225,7 @@ func panicSite(stack string) string {
 // goroutine is blocked) and cannot be stopped.  apiWatchdog runs outside every bubble on the real clock: a request
 // that is still being served after hangAfter of real time is reported as a hang (the slowest legitimate requests -
 // encrypting a wallet - take well under a second) and the worker process ends with the run recorded.
-const hangAfter = 20 * time.Second
+const hangAfter = 45 * time.Second
 
 var reqWatch struct {
 	mu     sync.Mutex
@@ -977,8 +977,8 @@ func runAPICrash(c *sim.Ctx) {
 				q.body += "&pad=" + strings.Repeat("z", 1<<16)
 			}
 		}
-		if c.Property == "C28" && t.Chance("directed-count-request", 1, 4000) {
-			// the recorded finding, asked for outright now and then (each occurrence costs the run 20 s of real time):
+		if c.Property == "C28" && t.Chance("directed-count-request", 1, 6000) {
+			// the recorded finding, asked for outright now and then (each occurrence costs the run 45 s of real time):
 			// a well-formed request to a loaded wallet with an astronomically large count
 			big := []string{"4294967295", "9223372036854775807", "18446744073709551615"}[t.Int("directed-count", 3)]
 			form := func(kv ...string) string {
